@@ -517,6 +517,16 @@ func runDrv(c *ctx) {
 			line := fmt.Sprintf("T drv.%s.%s %x %s = %s %s", kind, op, seid, toks, res, e.reqs())
 			if kind == "urr" {
 				line += " perio=" + perioOf()
+				// now and then the same Create URR arrives a second time while the rule is live: the data plane refuses it
+				// (EEXIST) and the live URR must stay registered for periodic querying exactly as it was
+				if op == "create" && res == "ok" && r.chance(30) {
+					c.count("urr.create.again")
+					guard(func() string {
+						return resStr(e.g.CreateURR(seid, ie.NewCreateURR(ies...)))
+					})
+					e.reqs()
+					line += " again=" + perioOf()
+				}
 				// unregister again (Remove URR always unregisters), so that the groups of the next line start empty.  Now and
 				// then the data plane has lost the rule and refuses the removal (ENOENT): the periodic registration must go all
 				// the same — a removed URR, or one of an ended session, is not queried any more
